@@ -90,6 +90,14 @@ func scenarios(run *report.Run) []scen {
 	// pool wind-down under lock contention: a far future stays pending, a blocking burst grows the pool to its
 	// limit, then all surplus workers leave at about the same time while four goroutines hammer the package
 	// lock (hook reads). Exactly one worker has to stay as long as the far future is pending.
+	// long watchdogs mixed with short calls, watchdogs cancelled from the middle of the queue
+	for _, p := range [][]string{{"watchdogs", "near", "cancelwatchdog", "near", "burst", "near"}, {"near", "watchdogs", "burst", "cancelwatchdog", "near", "near"}, {"watchdogs", "cancelwatchdog", "near", "cancelhead", "near"}} {
+		for _, callers := range []int{1, 4} {
+			for _, mw := range []int{1, 10} {
+				res = append(res, scen{Order: p, Callers: callers, Idle: 20 * time.Millisecond, MaxWorkers: mw})
+			}
+		}
+	}
 	for _, mw := range []int{2, 10} {
 		for rep := 0; rep < run.Pick(3, 12); rep++ {
 			res = append(res, scen{Order: []string{"contended"}, Callers: 1 + rep%3, Idle: 20 * time.Millisecond, MaxWorkers: mw})
@@ -202,9 +210,36 @@ func runScenario(sc scen) (fs []tmon.Finding, nFut int, stats map[string]int64, 
 		}
 	}()
 	var maxWorkersSeen int64
-	for _, el := range sc.Order {
+	var watchdogs []*tmon.Fut
+	for ei, el := range sc.Order {
 		if el == "near" && sc.PauseBeforeNear > 0 {
 			time.Sleep(sc.PauseBeforeNear)
+		}
+		if ei > 0 && (ei+sc.Callers)%2 == 0 {
+			// late and repeated cancels: futures that have fired or were cancelled already are cancelled (again);
+			// whatever is scheduled afterwards must not be affected
+			for _, f := range mon.Futures() {
+				if f.Started() > 0 || len(f.Cancels()) > 0 {
+					mon.Cancel(f)
+				}
+			}
+		}
+		switch el {
+		case "watchdogs":
+			// several long timeouts with different deadlines (the far part of the queue gets a shape)
+			for i, d := range []time.Duration{40, 90, 50, 80, 60, 70, 45} {
+				_ = i
+				watchdogs = append(watchdogs, mon.Call(d*time.Second, 0, true))
+			}
+			continue
+		case "cancelwatchdog":
+			// cancel watchdogs from the middle / the leaves of the queue, not the head
+			for _, i := range []int{3, 1} {
+				if i < len(watchdogs) && len(watchdogs[i].Cancels()) == 0 {
+					mon.Cancel(watchdogs[i])
+				}
+			}
+			continue
 		}
 		var wg sync.WaitGroup
 		for c := 0; c < sc.Callers; c++ {
@@ -403,7 +438,7 @@ func TestChild(t *testing.T) {
 func TestCheck(t *testing.T) {
 	run := report.New("C13", "exploration")
 	defer run.Finish(t)
-	run.Rule("arrival patterns: permutations of {far future (30 s, or 'never' = MaxInt64), near future 20 ms, burst of 50 futures (> pool), cancel the head of the queue, idle gap of 2.5 idle timeouts} (24 orders quick, all 120 thorough) x 1 or 4 concurrent callers x idle timeout 20 ms / 200 ms (/ 5 s thorough) x pool limit 1/2/10, callbacks return at once. Monitors: every non-cancelled future starts (drain detector on hook state; pending>0 with no worker is final), lateness <= 1.5 s, hook invariant pending>0 => workers>=1 sampled under the package lock, workers reach 0 within (limit+3) idle periods + 2 s and the goroutine census agrees, a Call after the wind-down fires again; contended wind-down rounds: a far future pending, a blocking burst grows the pool to its limit, four goroutines hammer the package lock while the surplus workers leave - one worker must stay. evaluations = futures; distinct = distinct scenario configurations")
+	run.Rule("arrival patterns: permutations of {far future (30 s, or 'never' = MaxInt64), near future 20 ms, burst of 50 futures (> pool), cancel the head of the queue, idle gap of 2.5 idle timeouts} (24 orders quick, all 120 thorough) x 1 or 4 concurrent callers x idle timeout 20 ms / 200 ms (/ 5 s thorough) x pool limit 1/2/10, callbacks return at once; between the elements futures that fired or were cancelled already are cancelled again (late / repeated cancels); extra patterns with seven long watchdogs of different deadlines, two of which are cancelled from the middle of the queue, mixed with near futures and bursts. Monitors: every non-cancelled future starts (drain detector on hook state; pending>0 with no worker is final), lateness <= 1.5 s, hook invariant pending>0 => workers>=1 sampled under the package lock, workers reach 0 within (limit+3) idle periods + 2 s and the goroutine census agrees, a Call after the wind-down fires again; contended wind-down rounds: a far future pending, a blocking burst grows the pool to its limit, four goroutines hammer the package lock while the surplus workers leave - one worker must stay. evaluations = futures; distinct = distinct scenario configurations")
 	run.Assume("lateness and wind-down bounds are two orders of magnitude above the healthy values and guarded by a stall canary (repeat up to 3 times, then inconclusive)")
 
 	if p := os.Getenv("VERIF_REPLAY"); p != "" {
